@@ -160,7 +160,10 @@ def execute(row, seed, version=None):
                 log.append([name, i, kd, occ, 1 if (name in ('EI', 'OI') and effect_visible(kd, occ)) else 0])
                 if l['ig']:
                     raise IgnorePacket
-            c.register_packet_listener(cbk, *types, early=early, outgoing=outgoing)
+            if j % 2:
+                c.register_packet_listener(cbk, *types, early=early, outgoing=outgoing)
+            else:                       # the decorator spelling of the same registration
+                c.listener(*types, early=early, outgoing=outgoing)(cbk)
         holder['sc'].resume('go')
         if not row['batch']:
             for k in range(1, len(hist) + 1):
